@@ -3,26 +3,76 @@
 Every record / question is described by its *constructor arguments* (`Desc`); the object under test is built from
 them, while the oracle (`spec_ident`) and the model driver line are computed from the arguments alone -- never from
 attributes of the object -- so that what `__init__` does to them (masking the cache-flush bit off the class,
-lower-casing keys, sorting NSEC types, storing the scope) is part of what is checked.
+lower-casing keys, sorting NSEC types, storing the scope, storing the port) is part of what is checked.
 
-Two vocabularies: a *core* one over which **all ordered pairs** are evaluated (exhaustive, both tiers), and an
-*extended* one (more names/hosts/classes/TTLs) from which pairs are sampled (near neighbours = one-field variants,
-the twin of each record under every other owner name, and random partners).
+Case: "case-insensitively" is read as "equal after lower-casing every character by Unicode's lower-case mapping" (what
+`str.lower()` does).  The oracle does NOT call `str.lower()`: it folds with a hand-written table (`LOWER`, `UNCASED`) that
+covers exactly the characters of the vocabularies, and the driver receives the folded form of every name / target on its
+line (`tbl`), so model, oracle and implementation fold independently of each other.
+
+Three vocabularies: a *core* one over which **all ordered pairs** are evaluated (exhaustive, both tiers), a *spelling*
+one (spellings of one name / host that differ in case -- ASCII, KELVIN SIGN, E-acute, capital sharp s, dotted I --, in the
+trailing dot, in surrounding white space, in normalisation form; ports / priorities / weights beyond 16 bits; NSEC type lists
+with a repeated type) over which all pairs *with the same rdata under every pair of names* and *all pairs under one name* are
+evaluated (both tiers), and an *extended* one (more names/hosts/classes/TTLs) from which pairs are sampled.
 """
 from __future__ import annotations
 
 from . import common as C
 
-TRUSTED = ["str.lower() is modelled as an uninterpreted function in the theorems and as ASCII lowering in the driver; "
-           "the vocabulary has no upper-case non-ASCII letter, so the two agree on it (where str.lower() and DNS's "
-           "ASCII-only case-insensitivity differ - 'É' vs 'é' - is a reading: the property says 'case-insensitively' "
-           "and the library uses str.lower())",
-           "sorted() of the NSEC type list (the translator checks that rdtypes is stored as sorted(rdtypes))"]
+TRUSTED = ["'case-insensitively' is read as equality after Unicode lower-casing (str.lower(), not ASCII-only folding, not casefold()): "
+           "theorems take `lower` as a parameter and prove the case clause for every `lower` that identifies the case variants in question "
+           "(C20_case_ignored); oracle and driver fold with a hand-written table for the vocabulary's characters, not with str.lower()",
+           "sorted() of the NSEC type list (the translator checks that rdtypes is stored as sorted(rdtypes)); a type list with a repeated type "
+           "is a different rdata although the wire bitmap is the same (reading: rdata = the constructor's list)"]
 ASSUMPTIONS = ["CPython dict/set behave as maps for keys with congruent __eq__/__hash__ (the congruence is what C20 proves)"]
 
 IN, UNIQUE, ANY = 1, 0x8000, 255
 T_A, T_CNAME, T_PTR, T_HINFO, T_TXT, T_AAAA, T_SRV, T_NSEC, T_ANY = 1, 5, 12, 13, 16, 28, 33, 47, 255
 V6 = b"\xfe\x80" + b"\x00" * 13 + b"\x01"
+V6B = b"\xfe\x80" + b"\x00" * 13 + b"\x02"
+
+# ------------------------------------------------------------------------------------------------
+# the oracle's own case folding
+
+LOWER = {chr(c): chr(c + 32) for c in range(65, 91)}
+LOWER.update({
+    "\u212a": "k",         # KELVIN SIGN -> k
+    "\u00c9": "\u00e9",    # E acute
+    "\u1e9e": "\u00df",    # LATIN CAPITAL LETTER SHARP S -> sharp s
+    "\u0130": "i\u0307",   # I with dot above -> i + combining dot above
+    "\u00dc": "\u00fc",    # U diaeresis
+})
+# characters that have no lower-case mapping different from themselves (lower-case letters, uncased, marks, digits, punctuation):
+# e acute, sharp s, long s, dotless i, fi ligature, u diaeresis, combining dot above / acute, two CJK characters
+UNCASED = set("abcdefghijklmnopqrstuvwxyz0123456789._- \t") | set("\u00e9\u00df\u017f\u0131\ufb01\u00fc\u0307\u0301\u65e5\u672c")
+
+
+def fold(s):
+    out = []
+    for ch in s:
+        if ch in LOWER:
+            out.append(LOWER[ch])
+        elif ch in UNCASED:
+            out.append(ch)
+        else:
+            raise RuntimeError("C20 harness: vocabulary character %r has no entry in the folding table" % ch)
+    return "".join(out)
+
+
+def ascii_lower(s):
+    return "".join(chr(ord(c) + 32) if "A" <= c <= "Z" else c for c in s)
+
+
+def tbl(strings):
+    """the `lower` table of a driver line: `<n> (<hex s> <hex fold(s)>)*n`, for the strings whose folding is not plain ASCII
+    lowering (the driver's default for a string that is not listed)"""
+    ent = []
+    for s in dict.fromkeys(strings):
+        f = fold(s)
+        if f != ascii_lower(s):
+            ent.append("%s %s" % (C.hs(s), C.hs(f)))
+    return " ".join([str(len(ent))] + ent)
 
 
 # ------------------------------------------------------------------------------------------------
@@ -55,17 +105,27 @@ def build(d):
 def spec_ident(d):
     """the property's sentence, on the constructor arguments: kind; owner name case-insensitively; type; class without
     the top (cache-flush) bit; rdata with PTR target / SRV host case-insensitively and the IPv6 scope.  TTL and creation
-    time do not occur."""
+    time do not occur.  Case-insensitively = `fold` (the oracle's own table)."""
     kind, name, type_, c, _ttl, _cr, rd = d
     if kind == "p":
-        rdi = (rd[0].lower(),)
+        rdi = (fold(rd[0]),)
     elif kind == "s":
-        rdi = (rd[0], rd[1], rd[2], rd[3].lower())
+        rdi = (rd[0], rd[1], rd[2], fold(rd[3]))
     elif kind == "n":
         rdi = (rd[0], tuple(sorted(rd[1])))
     else:
         rdi = rd
-    return (kind, name.lower(), type_, c % 32768, rdi)
+    return (kind, fold(name), type_, c % 32768, rdi)
+
+
+def strings_of(d):
+    """the strings of a record that identity folds: owner name, PTR target, SRV host"""
+    kind, name, rd = d[0], d[1], d[6]
+    if kind == "p":
+        return [name, rd[0]]
+    if kind == "s":
+        return [name, rd[3]]
+    return [name]
 
 
 def line(d):
@@ -83,6 +143,14 @@ def line(d):
     if kind == "s":
         return "s %s %d %d %d %s" % (head, rd[0], rd[1], rd[2], C.hs(rd[3]))
     return "n %s %s %s" % (head, C.hs(rd[0]), C.natlist(sorted(rd[1])))
+
+
+def pair_line(da, db):
+    return "c20r %s %s %s" % (tbl(strings_of(da) + strings_of(db)), line(da), line(db))
+
+
+def list_line(cmd, stored, probe):
+    return "%s %s %d %s %s" % (cmd, tbl([s for d in stored + [probe] for s in strings_of(d)]), len(stored), " ".join(line(d) for d in stored), line(probe))
 
 
 def qline(q):
@@ -110,6 +178,7 @@ def variants(name, c, ttl, cr, hosts):
         D("t", name, T_TXT, c, ttl, cr, b"\x03a=1"),
         D("t", name, T_TXT, c, ttl, cr, b"\x03A=1"),
         D("t", name, T_TXT, c, ttl, cr, b""),
+        D("t", name, T_TXT, c, ttl, cr, b"\x00"),        # one empty string: another rdata than no string at all
         D("s", name, T_SRV, c, ttl, cr, 1, 0, 80, hosts[0]),
         D("s", name, T_SRV, c, ttl, cr, 0, 1, 80, hosts[0]),
         D("s", name, T_SRV, c, ttl, cr, 0, 0, 81, hosts[0]),
@@ -127,7 +196,7 @@ def vocab_core():
     """small enough for all ordered pairs: 5 owner names (two spellings of one name, an unrelated one, a pair that only
     full case folding merges), 4 raw classes (IN with and without the flush bit, ANY, and 0x0101 = IN plus a bit inside
     the 15-bit class), TTL/creation time varied per (name, class) so that identity-equal records differ in them"""
-    names = ["foo._http._tcp.local.", "Foo._HTTP._tcp.local.", "bar._http._tcp.local.", "straße._x._udp.local.", "strasse._x._udp.local."]
+    names = ["foo._http._tcp.local.", "Foo._HTTP._tcp.local.", "bar._http._tcp.local.", "stra\u00dfe._x._udp.local.", "strasse._x._udp.local."]
     hosts = ["host.local.", "HOST.Local.", "other.local."]
     classes = [IN, IN | UNIQUE, ANY, 0x0101]
     recs = []
@@ -139,10 +208,60 @@ def vocab_core():
     return recs, qs
 
 
+# spellings of ONE owner name and of ONE host that must / must not be the same name.  "Same" is decided by `fold` alone.
+SPELL_NAMES = [
+    "kelvin.local.", "KELVIN.LOCAL.", "\u212aelvin.local.",          # ASCII case; KELVIN SIGN lower-cases to k
+    "kelvin.local", " kelvin.local.", "kelvin.local. ", "kelvin.local..", "kelvin\t.local.",   # trailing dot / white space are NOT case
+    "\u00e9t\u00e9.local.", "\u00c9t\u00e9.local.", "e\u0301te\u0301.local.",                  # E acute; the NFD spelling is another name
+    "stra\u00dfe.local.", "STRA\u1e9eE.local.", "strasse.local.", "stra\u017fe.local.",        # capital sharp s -> sharp s; ss and long s are other names
+    "\u0130d.local.", "i\u0307d.local.", "id.local.", "\u0131d.local.",                        # dotted capital I -> i + U+0307; plain and dotless i are other names
+]
+SPELL_HOSTS = ["host.local.", "HOST.local.", "host.local", " host.local.", "host.local. ", "\u212aost.local.", "kost.local.", "h\u00dcst.local.", "h\u00fcst.local."]
+
+
+def spell_variants(name, c, ttl, cr):
+    out = [D("a", name, T_A, c, ttl, cr, b"\x0a\x00\x00\x01", None),
+           D("a", name, T_AAAA, c, ttl, cr, V6, None),
+           D("a", name, T_AAAA, c, ttl, cr, V6B, None),
+           D("t", name, T_TXT, c, ttl, cr, b"\x03a=1")]
+    for h in SPELL_HOSTS:
+        out.append(D("p", name, T_PTR, c, ttl, cr, h))
+        out.append(D("s", name, T_SRV, c, ttl, cr, 0, 0, 80, h))
+    h = SPELL_HOSTS[0]
+    # SRV numbers are compared as given: nothing is reduced modulo 2^16
+    for pr, we, po in [(0, 0, 0), (0, 0, 65535), (0, 0, 65616), (0, 0, 65536), (65536, 0, 80), (0, 65536, 80), (1, 0, 80), (0, 1, 80), (0, 0, 81)]:
+        out.append(D("s", name, T_SRV, c, ttl, cr, pr, we, po, h))
+    out += [D("n", name, T_NSEC, c, ttl, cr, name, (T_A,)),
+            D("n", name, T_NSEC, c, ttl, cr, name, (T_A, T_A)),          # a repeated type: another list, the same bitmap (reading)
+            D("h", name, T_HINFO, c, ttl, cr, "cpu", "os")]
+    return out
+
+
+def vocab_spell():
+    recs, groups = [], []
+    for ni, n in enumerate(SPELL_NAMES):
+        for ci, c in enumerate([IN, IN | UNIQUE]):
+            v = spell_variants(n, c, [120, 4500][(ni + ci) % 2], 2000.0 + ni)
+            groups.append((len(recs), len(v)))
+            recs += v
+    per = groups[0][1]
+    pairs = set()
+    for start, k in groups:                       # all pairs under one (name, class)
+        for i in range(start, start + k):
+            for j in range(start, start + k):
+                pairs.add((i, j))
+    for gi, (s1, _k) in enumerate(groups):        # the same rdata under every pair of (name, class)
+        for s2, _k2 in groups:
+            for o in range(per):
+                pairs.add((s1 + o, s2 + o))
+    qs = [(n, t, c) for n in SPELL_NAMES for t in (T_PTR,) for c in (IN, IN | UNIQUE)]
+    return recs, sorted(pairs), qs
+
+
 def vocab_ext(tier):
-    names = ["foo._http._tcp.local.", "Foo._HTTP._tcp.local.", "FOO._http._TCP.LOCAL.", "bar._http._tcp.local.", "日本._x._udp.local.",
-             "straße._x._udp.local.", "strasse._x._udp.local.", "é._x._udp.local.", "ﬁsh._x._udp.local.", "fish._x._udp.local.", "STRASSE._x._udp.local."]
-    hosts = ["host.local.", "HOST.Local.", "other.local.", "straße.local.", "strasse.local."]
+    names = ["foo._http._tcp.local.", "Foo._HTTP._tcp.local.", "FOO._http._TCP.LOCAL.", "bar._http._tcp.local.", "\u65e5\u672c._x._udp.local.",
+             "stra\u00dfe._x._udp.local.", "strasse._x._udp.local.", "\u00e9._x._udp.local.", "\ufb01sh._x._udp.local.", "fish._x._udp.local.", "STRASSE._x._udp.local."]
+    hosts = ["host.local.", "HOST.Local.", "other.local.", "stra\u00dfe.local.", "strasse.local."]
     classes = [IN, IN | UNIQUE, ANY, 2 | UNIQUE, 0x0101, 0x7FFF, 0xFFFF]
     ttls = [0, 1, 120, 4500]
     if tier != "thorough":
@@ -160,6 +279,16 @@ def vocab_ext(tier):
 # ------------------------------------------------------------------------------------------------
 
 
+class Msg:
+    """stands for a DNSIncoming: `DNSRecord.suppressed_by` only calls `.answers()`"""
+
+    def __init__(self, answers):
+        self._a = list(answers)
+
+    def answers(self):
+        return self._a
+
+
 def check_pair(res, da, db, a, b, mline, case):
     res.evaluations += 1
     eq = a == b
@@ -171,14 +300,17 @@ def check_pair(res, da, db, a, b, mline, case):
     spec = sa == sb
     diff = tuple(k for k, (x, y) in enumerate(zip(sa, sb)) if x != y)
     flush_differs = (da[3] >= 32768) != (db[3] >= 32768)
-    sig = "%s/%s/%s/%s" % (da[0], db[0], diff, (da[4] != db[4], flush_differs))
+    spelled = da[1] != db[1] or (da[0] in "ps" and db[0] in "ps" and da[6][-1] != db[6][-1])
+    sig = "%s/%s/%s/%s" % (da[0], db[0], diff, (da[4] != db[4], flush_differs, spelled and spec))
     if eq or len(diff) <= 1:
         res.nontriv(sig)
     res.count("equal" if eq else "unequal")
+    if spec and spelled:
+        res.count("equal-with-different-spelling")
     kn = type(a).__name__
     if eq != spec:
         res.violate("C20:eq-vs-spec:%s/%s:%s%s" % (kn, type(b).__name__, diff, ":flush-bit" if spec and flush_differs else ""),
-                    "records compare %s but identity (kind, lower name, type, class without the flush bit, rdata) of the "
+                    "records compare %s but identity (kind, name case-insensitively, type, class without the flush bit, rdata) of the "
                     "constructor arguments says %s" % (eq, spec), case())
     if eq and not heq:
         res.violate("C20:equal-unequal-hash:%s" % kn, "equal records with different hashes", case())
@@ -207,13 +339,21 @@ def run(ctx):
     res = C.Result("C20")
     rng = C.rng_for(ctx["seed"], "c20")
     core, qs = vocab_core()
+    spell, spell_pairs, spell_qs = vocab_spell()
     ext, group = vocab_ext(ctx["tier"])
+    # the oracle's folding table against CPython's str.lower() on every string of the vocabularies: a difference is a fault of
+    # this harness or of the interpreter, not of the library under test
+    for d in core + spell + ext:
+        for s in strings_of(d):
+            if fold(s) != s.lower():
+                raise RuntimeError("C20 harness: folding table and str.lower() differ on %r" % s)
+    qs = qs + spell_qs
     budget = C.Budget(ctx["tier"], 16000, 260000).n
     if ctx["widened"]:
         budget *= 4
     core_obj = [build(d) for d in core]
+    spell_obj = [build(d) for d in spell]
     ext_obj = [build(d) for d in ext]
-    q_obj = None
     from zeroconf._dns import DNSQuestion
 
     q_obj = [DNSQuestion(*q) for q in qs]
@@ -235,26 +375,37 @@ def run(ctx):
             js.add(j)
         ext_pairs.extend((i, j) for j in sorted(js))
     qpairs = [(i, j) for i in range(len(qs)) for j in range(len(qs))]
-    # (3) DNSRRSet over lists with identity-equal records of different TTL
-    rr_cases = []
-    for _ in range(400 if ctx["tier"] != "thorough" else 4000):
+    # (3) lists of stored records / known answers with identity-equal records of different TTL, from the core and the
+    # spelling vocabulary: DNSRRSet.suppresses, DNSRecord.suppressed_by(msg), duplicate removal among a reply's additionals
+    pool = core + spell
+    np_ = len(pool)
+    twins = {}
+    for j, d in enumerate(pool):
+        twins.setdefault(spec_ident(d), []).append(j)
+    list_cases = []
+    for _ in range(500 if ctx["tier"] != "thorough" else 5000):
         k = rng.randint(1, 4)
-        base = rng.randrange(n)
+        base = rng.randrange(np_)
         idxs = []
         for _ in range(k):
             r = rng.random()
             if r < 0.6:  # an identity twin (other spelling / flush bit / TTL) or a near neighbour
-                cand = [j for j in range(n) if spec_ident(core[j]) == spec_ident(core[base])] if r < 0.4 else list(range(max(0, base - 3), min(n, base + 4)))
+                cand = twins[spec_ident(pool[base])] if r < 0.4 else list(range(max(0, base - 3), min(np_, base + 4)))
                 idxs.append(rng.choice(cand))
             else:
-                idxs.append(rng.randrange(n))
+                idxs.append(rng.randrange(np_))
         probe = rng.choice([base] + idxs)
-        rr_cases.append((idxs, probe))
+        list_cases.append((idxs, probe))
 
-    lines = ["c20r %s %s" % (line(core[i]), line(core[j])) for i, j in core_pairs]
-    lines += ["c20r %s %s" % (line(ext[i]), line(ext[j])) for i, j in ext_pairs]
-    lines += ["c20q %s %s" % (qline(qs[i]), qline(qs[j])) for i, j in qpairs]
-    lines += ["c20s %d %s %s" % (len(ix), " ".join(line(core[i]) for i in ix), line(core[p])) for ix, p in rr_cases]
+    lines = [pair_line(core[i], core[j]) for i, j in core_pairs]
+    lines += [pair_line(spell[i], spell[j]) for i, j in spell_pairs]
+    lines += [pair_line(ext[i], ext[j]) for i, j in ext_pairs]
+    lines += ["c20q %s %s %s" % (tbl([qs[i][0], qs[j][0]]), qline(qs[i]), qline(qs[j])) for i, j in qpairs]
+    for cmd in ("c20s", "c20m"):
+        lines += [list_line(cmd, [pool[i] for i in ix], pool[p]) for ix, p in list_cases]
+    # c20d: answers = [probe], additionals = the stored list
+    lines += ["c20d %s 1 %s %d %s" % (tbl([s for i in ix + [p] for s in strings_of(pool[i])]), line(pool[p]), len(ix), " ".join(line(pool[i]) for i in ix))
+              for ix, p in list_cases]
     model = None
     if ctx["driver_ok"]:
         try:
@@ -263,33 +414,42 @@ def run(ctx):
             res.notes.append("driver unavailable: %s" % ex)
     res.rule = ("ALL %d ordered pairs over a core vocabulary of %d records (5 owner names incl. two spellings and a pair only full case folding "
                 "merges, 4 raw classes with/without the cache-flush bit, 7 kinds, rdata variants differing in one field, TTL/created "
-                "varying between identity-equal records) + %d sampled pairs over an extended vocabulary of %d records + all %d pairs of %d "
-                "questions + %d DNSRRSet look-ups over 1-4 stored records; oracle and model line are computed from the constructor arguments, "
-                "never from the object; non-trivial = distinct (kind pair, which-fields-differ, ttl/flush differ) signature among pairs "
-                "that are equal or differ in exactly one identity-relevant respect"
-                % (len(core_pairs), n, len(ext_pairs), m, len(qpairs), len(qs), len(rr_cases)))
+                "varying between identity-equal records) + %d pairs over a spelling vocabulary of %d records (%d spellings of 4 names: ASCII case, "
+                "KELVIN SIGN, E acute, capital sharp s, dotted capital I, missing trailing dot, white space, NFD; %d spellings of a host; SRV numbers "
+                "beyond 16 bits; NSEC lists with a repeated type): every pair under one name and every pair with the same rdata under two names "
+                "+ %d sampled pairs over an extended vocabulary of %d records + all %d pairs of %d questions + %d lists of 1-4 stored records "
+                "through DNSRRSet.suppresses, DNSRecord.suppressed_by(message) and the additional-section duplicate removal of a reply; oracle and "
+                "model line are computed from the constructor arguments, never from the object; case folding by the oracle's own table, not "
+                "str.lower(); non-trivial = distinct (kind pair, which-fields-differ, ttl/flush/spelling differ) signature among pairs that are "
+                "equal or differ in exactly one identity-relevant respect"
+                % (len(core_pairs), n, len(spell_pairs), len(spell), len(SPELL_NAMES), len(SPELL_HOSTS), len(ext_pairs), m, len(qpairs), len(qs), len(list_cases)))
     off = 0
     for idx, (i, j) in enumerate(core_pairs):
         check_pair(res, core[i], core[j], core_obj[i], core_obj[j], model[off + idx] if model else None,
                    lambda i=i, j=j: {"a": list(map(repr, core[i])), "b": list(map(repr, core[j])), "vocab": "core", "i": i, "j": j})
     off += len(core_pairs)
+    for idx, (i, j) in enumerate(spell_pairs):
+        check_pair(res, spell[i], spell[j], spell_obj[i], spell_obj[j], model[off + idx] if model else None,
+                   lambda i=i, j=j: {"a": list(map(repr, spell[i])), "b": list(map(repr, spell[j])), "vocab": "spell", "i": i, "j": j})
+    off += len(spell_pairs)
     for idx, (i, j) in enumerate(ext_pairs):
         check_pair(res, ext[i], ext[j], ext_obj[i], ext_obj[j], model[off + idx] if model else None,
                    lambda i=i, j=j: {"a": list(map(repr, ext[i])), "b": list(map(repr, ext[j])), "vocab": "ext:" + ctx["tier"], "i": i, "j": j})
     off += len(ext_pairs)
     res.sample({"a": repr(core_obj[0]), "b": repr(core_obj[1]), "eq": core_obj[0] == core_obj[1]})
+    res.sample({"a": repr(spell_obj[0]), "b": repr(build(spell[2 * len(spell_variants("x", IN, 0, 0))])), "eq": spell_obj[0] == build(spell[2 * len(spell_variants("x", IN, 0, 0))])})
 
     for idx, (i, j) in enumerate(qpairs):
         a, b = q_obj[i], q_obj[j]
         res.evaluations += 1
         eq = a == b
         heq = hash(a) == hash(b)
-        spec = (qs[i][0].lower(), qs[i][1], qs[i][2] % 32768) == (qs[j][0].lower(), qs[j][1], qs[j][2] % 32768)
+        spec = (fold(qs[i][0]), qs[i][1], qs[i][2] % 32768) == (fold(qs[j][0]), qs[j][1], qs[j][2] % 32768)
         if eq or spec:
             res.nontriv("q/%s/%s" % (qs[i][0] != qs[j][0], (qs[i][2] >= 32768) != (qs[j][2] >= 32768)))
         case = {"qa": list(qs[i]), "qb": list(qs[j])}
         if eq != spec:
-            res.violate("C20:question-eq-vs-spec", "questions compare %s, (lower name, type, class without the QU bit) says %s" % (eq, spec), case)
+            res.violate("C20:question-eq-vs-spec", "questions compare %s, (name case-insensitively, type, class without the QU bit) says %s" % (eq, spec), case)
         if eq and not heq:
             res.violate("C20:question-hash", "equal questions with different hashes", case)
         if model is not None:
@@ -298,38 +458,70 @@ def run(ctx):
                 res.disagree("c20q", case, {"eq": eq, "hash_eq": heq, "spec": spec}, mm)
     off += len(qpairs)
 
-    # "the same record for the cache, for known-answer suppression": the containers that rely on identity
+    # "the same record for the cache, for known-answer suppression and for duplicate removal in replies": the containers and
+    # loops that rely on identity
     from zeroconf import DNSCache
     from zeroconf._dns import DNSRRSet, DNSNsec
+    from zeroconf._handlers.answers import construct_outgoing_multicast_answers
 
-    for idx, (ix, p) in enumerate(rr_cases):
-        res.evaluations += 1
-        sup = DNSRRSet([build(core[i]) for i in ix]).suppresses(build(core[p]))
-        same = [i for i in ix if spec_ident(core[i]) == spec_ident(core[p])]
-        # suppression = some stored record is the same record and has more than half the probe's TTL.  When several
+    L = len(list_cases)
+    for idx, (ix, p) in enumerate(list_cases):
+        res.evaluations += 3
+        dp = pool[p]
+        same = [i for i in ix if spec_ident(pool[i]) == spec_ident(dp)]
+        case = {"stored": [list(map(repr, pool[i])) for i in ix], "probe": list(map(repr, dp))}
+        # (a) DNSRRSet.suppresses: some stored record is the same record and has more than half the probe's TTL.  When several
         # identical stored records disagree on the TTL test, the property does not say which one counts (the code and the
         # model use the last one: that is compared through the driver only), so the oracle accepts either verdict there.
-        verdicts = {core[i][4] > core[p][4] / 2 for i in same}
-        case = {"stored": [list(map(repr, core[i])) for i in ix], "probe": list(map(repr, core[p]))}
+        sup = DNSRRSet([build(pool[i]) for i in ix]).suppresses(build(dp))
+        verdicts = {pool[i][4] > dp[4] / 2 for i in same}
         if same:
             res.nontriv("rrset/%d/%d/%s" % (len(ix), len(same), sorted(verdicts)))
         if (not same and sup) or (len(verdicts) == 1 and sup != next(iter(verdicts))):
-            res.violate("C20:rrset-suppression:%s" % core[p][0], "known-answer suppression says %s, identity and TTLs say %s" % (sup, sorted(verdicts) or [False]), case)
+            res.violate("C20:rrset-suppression:%s" % dp[0], "known-answer suppression says %s, identity and TTLs say %s" % (sup, sorted(verdicts) or [False]), case)
+        # (b) DNSRecord.suppressed_by(message): ANY answer of the message that is the same record with more than half the TTL
+        sby = bool(build(dp).suppressed_by(Msg([build(pool[i]) for i in ix])))
+        want = any(pool[i][4] > dp[4] / 2 for i in same)
+        if same:
+            res.nontriv("suppressed-by/%d/%s/%s" % (len(ix), [ix.index(i) for i in same][:1], want))
+        if sby != want:
+            res.violate("C20:suppressed-by-message:%s" % dp[0], "a message whose answers %s the same record with more than half the TTL %s the record"
+                        % ("contain" if want else "do not contain", "suppresses" if sby else "does not suppress"), case)
+        # (c) duplicate removal in a reply: an additional record that is the same record as an answer, or as an additional
+        # already taken, is not sent; every other one is
+        adds = [build(pool[i]) for i in ix]
+        desc_of = {id(o): pool[i] for o, i in zip(adds, ix)}
+        out = construct_outgoing_multicast_answers({build(dp): set(adds)})
+        n_add = len(out.additionals)
+        classes_ = {spec_ident(pool[i]) for i in ix} - {spec_ident(dp)}
+        sent = [spec_ident(desc_of[id(x)]) if id(x) in desc_of else ("not one of the additionals given", repr(x)) for x in out.additionals]
+        if len(out.answers) != 1 or n_add != len(classes_) or set(sent) != classes_:
+            res.violate("C20:reply-duplicate-removal:%s" % dp[0], "a reply with one answer and %d additionals carrying %d distinct other records is sent with %d "
+                        "answers and %d additionals" % (len(ix), len(classes_), len(out.answers), n_add), case)
+        res.nontriv("reply/%d/%d" % (len(ix), len(classes_)))
         if model is not None:
             mm = model[off + idx].strip()
             if mm not in ("0", "1") or (mm == "1") != sup:
                 res.disagree("c20s", case, sup, mm)
-    off += len(rr_cases)
+            mm = model[off + L + idx].strip()
+            if mm not in ("0", "1") or (mm == "1") != sby:
+                res.disagree("c20m", case, sby, mm)
+            mm = model[off + 2 * L + idx].strip()
+            if mm != str(n_add):
+                res.disagree("c20d", case, n_add, mm)
+    off += 3 * L
 
     sub = list(range(0, n, max(1, n // 160)))
-    near = [(i, j) for i in sub for j in sub]
+    near = [(core[i], core[j]) for i in sub for j in sub]
     for i in range(0, n - 1, 3):
         for j in range(i, min(n, i + 28)):
-            near.append((i, j))
-            near.append((j, i))
-    for i, j in near:
+            near.append((core[i], core[j]))
+            near.append((core[j], core[i]))
+    # the same rdata under two spellings of the owner name (the cache is keyed by the lowered name), and SRV/PTR target spellings
+    sp_sub = [(i, j) for i, j in spell_pairs if spell[i][0] in "aps" and (i * 7 + j) % 23 == 0]
+    near += [(spell[i], spell[j]) for i, j in sp_sub]
+    for da, db in near:
         res.evaluations += 1
-        da, db = core[i], core[j]
         a, b = build(da), build(db)
         same = spec_ident(da) == spec_ident(db)
         case = {"a": list(map(repr, da)), "b": list(map(repr, db))}
@@ -347,6 +539,7 @@ def run(ctx):
             res.violate("C20:cache-duplicate:%s" % kn, "adding the same record twice leaves %d copies in the cache" % len(held), case)
         if same:
             res.nontriv("cache/%s/%s" % (kn, da[1] != db[1]))
+    wire_stream(res, core)
     # questions are never equal to records
     for q in q_obj[:20]:
         for r in core_obj[:40]:
@@ -356,12 +549,82 @@ def run(ctx):
     return res
 
 
+KIND_TYPES = {"a": (T_A, T_AAAA), "h": (T_HINFO,), "p": (T_PTR, T_CNAME), "t": (T_TXT,), "s": (T_SRV,), "n": (T_NSEC,)}
+
+
+def spec_wire(d, scope):
+    """identity of the record a host builds from what it HEARS: the wire carries owner name, type, class (with the cache-flush
+    bit) and rdata; "IPv6 scope included" = the scope of the interface an AAAA record was heard on is part of its rdata.  An
+    A record has no scope; NSEC rdata is the bitmap, i.e. the *set* of types."""
+    kind, name, type_, c, _ttl, _cr, rd = d
+    if kind == "a":
+        rdi = (rd[0], scope if type_ == T_AAAA else None)
+    elif kind == "p":
+        rdi = (fold(rd[0]),)
+    elif kind == "s":
+        rdi = (rd[0], rd[1], rd[2], fold(rd[3]))
+    elif kind == "n":
+        rdi = (rd[0], tuple(sorted(set(rd[1]))))
+    else:
+        rdi = rd
+    return (kind, fold(name), type_, c % 32768, rdi)
+
+
+def wire_stream(res, core):
+    """records as the library builds them from a datagram: every well-typed core record of two owner names is written into
+    response packets (the library's own DNSOutgoing), each packet is parsed three times -- as heard on a socket without scope
+    and on IPv6 sockets with scope 0 and 3 -- and ALL pairs among the parsed records and the same records built directly
+    (A without scope, AAAA with the receiving scope) are compared with `spec_wire` of what was written.  (Oracle only: the parser is C02's model; what is checked here is that the constructor arguments the parser
+    chooses do not split or merge records.)"""
+    from zeroconf import DNSIncoming, DNSOutgoing, const
+
+    names = list(dict.fromkeys(d[1] for d in core))[:2]     # two spellings of one owner name
+    descs = [d for d in core if d[1] in names and d[2] in KIND_TYPES[d[0]] and d[3] in (IN, IN | UNIQUE)]
+    descs = [d if d[0] != "a" else D("a", d[1], d[2], d[3], d[4], d[5], d[6][0], None) for d in descs]
+    descs = list(dict.fromkeys(descs))
+    parsed = []  # (desc, scope, object)
+    try:
+        out = DNSOutgoing(const._FLAGS_QR_RESPONSE | const._FLAGS_AA, multicast=True)
+        for d in descs:
+            out.add_answer_at_time(build(d), 0)
+        packets = out.packets()
+        for scope in (None, 0, 3):
+            got = []
+            for p in packets:
+                got.extend(DNSIncoming(p, ("fe80::1", 5353), scope, 5000.0).answers())
+            if len(got) != len(descs):
+                res.notes.append("C20 wire stream: %d records written, %d parsed (scope %s): stream skipped" % (len(descs), len(got), scope))
+                return
+            parsed += [(d, scope, o) for d, o in zip(descs, got)]
+            # ... and the same records built directly: an A record without scope, an AAAA record with the receiving scope
+            parsed += [(d, scope, build(d if d[0] != "a" else D("a", d[1], d[2], d[3], d[4], d[5], d[6][0], scope if d[2] == T_AAAA else None)))
+                       for d in descs]
+    except Exception as ex:  # noqa: BLE001 - the codec is C01/C02's business; here it is only a vehicle
+        res.notes.append("C20 wire stream skipped: %r" % ex)
+        return
+    for da, sa, a in parsed:
+        wa = spec_wire(da, sa)
+        for db, sb, b in parsed:
+            res.evaluations += 1
+            eq = a == b
+            spec = wa == spec_wire(db, sb)
+            if eq != spec or (eq and hash(a) != hash(b)):
+                kn = type(a).__name__
+                res.violate("C20:parsed-eq-vs-spec:%s:%s" % (kn, "unequal-hash" if eq == spec else ("split" if spec else "merged")),
+                            "two records parsed from datagrams compare %s (hashes %s) but what was on the wire (name, type, class, rdata; the receiving "
+                            "scope for AAAA only) says %s" % (eq, "equal" if hash(a) == hash(b) else "differ", spec),
+                            {"a": list(map(repr, da)), "heard_on_scope_a": sa, "b": list(map(repr, db)), "heard_on_scope_b": sb,
+                             "parsed_a": repr(a), "parsed_b": repr(b)})
+            if spec:
+                res.nontriv("wire/%s/%s/%s" % (da[0], sa != sb, da[1] != db[1]))
+
+
 def replay(body):
     """re-evaluate a stored pair on the current tree"""
     case = body.get("case", body)
     try:
         if "vocab" in case:
-            voc = vocab_core()[0] if case["vocab"] == "core" else vocab_ext(case["vocab"].split(":")[1])[0]
+            voc = vocab_core()[0] if case["vocab"] == "core" else (vocab_spell()[0] if case["vocab"] == "spell" else vocab_ext(case["vocab"].split(":")[1])[0])
             da, db = voc[case["i"]], voc[case["j"]]
             a, b = build(da), build(db)
             spec = spec_ident(da) == spec_ident(db)
